@@ -385,6 +385,44 @@ def compare_structure(ctx, m, back, default, what):
                  missing=sorted(exp_b - got_b)[:10], unexpected=sorted(got_b - exp_b)[:10])
 
 
+def relabel_v3000(rng, text):
+    """The V3000 text with its atom labels replaced by distinct unordered positive integers (bond lines rewritten)."""
+    import re as _re
+    lines = text.split("\n")
+    block, natom = None, 0
+    for l in lines:
+        if l.startswith("M  V30 BEGIN ATOM"):
+            block = "atom"
+        elif l.startswith("M  V30 END"):
+            block = None
+        elif block == "atom" and _re.match(r"^M  V30 \d+ ", l):
+            natom += 1
+    if natom < 2:
+        return None
+    labels = [int(v) for v in rng.choice(np.arange(1, 5 * natom + 20), size=natom, replace=False)]
+    new, out, block = {}, [], None
+    for l in lines:
+        if l.startswith("M  V30 BEGIN ATOM"):
+            block = "atom"
+        elif l.startswith("M  V30 BEGIN BOND"):
+            block = "bond"
+        elif l.startswith("M  V30 END"):
+            block = None
+        elif block == "atom":
+            mm = _re.match(r"^(M  V30 )(\d+)( .*)$", l)
+            if mm is None:
+                return None
+            new[int(mm.group(2))] = labels[len(new)]
+            l = mm.group(1) + str(new[int(mm.group(2))]) + mm.group(3)
+        elif block == "bond":
+            mm = _re.match(r"^(M  V30 \d+ \d+ )(\d+) (\d+)(.*)$", l)
+            if mm is None:
+                return None
+            l = mm.group(1) + "%d %d" % (new[int(mm.group(2))], new[int(mm.group(3))]) + mm.group(4)
+        out.append(l)
+    return "\n".join(out)
+
+
 def check_ctab_text(ctx, m, lines, default, what):
     """Independent CTfile checker on the written text; returns the version found."""
     v3 = bool(lines) and len(lines[0]) >= 39 and lines[0][33:39] == " V3000"
@@ -797,6 +835,19 @@ def roundtrip_mol(ctx, rng, m, version, default, container, edges=False, with_he
     for w in wlist:
         ctx.note("read_warning:" + type(w.message).__name__)
     compare_structure(ctx, m, back, eff_default, what)
+    if found == "V3000" and rng.random() < 0.5:
+        # the same connection table with other atom labels: V3000 labels are arbitrary positive integers in any order,
+        # bonds refer to atoms by label
+        relab = relabel_v3000(rng, text)
+        if relab is not None:
+            ctx.op("read_V3000_relabelled")
+            try:
+                with warnings.catch_warnings():
+                    warnings.simplefilter("ignore")
+                    back2 = mol.MOLFile.read(io.StringIO(relab)).get_structure() if container in ("molfile", "convert_mol") or True else None
+            except Exception as e:
+                ctx.fail("atom_order_element", "%s: the same V3000 table with unordered atom labels cannot be read: %s: %s" % (what, type(e).__name__, e))
+            compare_structure(ctx, m, back2, eff_default, what + " (atom labels replaced by unordered integers)")
     try:
         h = get_header()
     except DeserializationError as e:
@@ -1482,6 +1533,21 @@ def rdkit_roundtrip(ctx, rng, m, chem, n_rings=0):
     y2, _ = rdkit_call(ctx, lambda: rd.from_mol(rdmol, **from_kw), "from_mol")
     if not (y2 == y) or y2.bonds.as_set() != y.bonds.as_set():
         ctx.fail("rdkit_mol_untouched", "%s: reading the same Mol twice gives different structures" % what)
+    if depth >= 3 and ctx.allowed("conformer_id_nonzero") and rng.random() < 0.5:
+        # conformer_id is RDKit's conformer *id*: after a conformer was removed the remaining ones keep their ids
+        gone = int(rng.integers(depth - 1))
+        rdmol.RemoveConformer(gone)
+        ctx.op("from_mol_after_RemoveConformer")
+        kw2 = {k: v for k, v in from_kw.items() if k != "conformer_id"}
+        for cid in [c for c in range(depth) if c != gone]:
+            try:
+                yk, _ = rdkit_call(ctx, lambda: rd.from_mol(rdmol, conformer_id=cid, **kw2), "from_mol")
+            except (ValueError, IndexError) as e:
+                ctx.fail("rdkit_conformers", "%s: after RemoveConformer(%d) conformer id %d cannot be read: %s: %s" % (what, gone, cid, type(e).__name__, e))
+            got = np.asarray(yk.coord, dtype=np.float64)[:n]
+            if got.shape != (n, 3) or not np.allclose(got, np.asarray(coords[cid], dtype=np.float64)[:n], atol=1e-3):
+                ctx.fail("rdkit_conformers", "%s: after RemoveConformer(%d), from_mol(conformer_id=%d) does not return the coordinates of model %d"
+                         % (what, gone, cid, cid))
     ctx.state(("rdkit", chem, depth, as_stack, kekulize, dative, str(conf), tuple(sorted(set(m.bonds.values()))),
                tuple(sorted(k for k, _ in extra.values())), bool(std), m.charge is None))
     ctx.mark_nontrivial(bool(m.bonds) and (depth >= 2 or n_rings > 0 or bool(extra) or (dative and has_coord_bond)
